@@ -528,7 +528,7 @@ def plan_stage(ctx):
     ctx.count("plan_pairs_hypothesis_fails", len(bad))
     # where the hypothesis fails: does the real planner still reach the count in a full feasible year?
     ctx.rng.shuffle(bad)
-    todo = bad[: ctx.pick(110, 1500)]
+    todo = bad[: ctx.pick(110, 1200)]
     if ctx.quick and not any(m == [2, 5, 10] and f == 4 for m, f, _ in todo):
         todo += [(m, f, p) for m, f, p in bad if m == [2, 5, 10] and f == 4]
     reached = short = 0
@@ -733,7 +733,7 @@ def run(ctx):
     H.history_stage(ctx, "C06", H.colliding_pairs(rng, small, ctx.pick(10, 100) * (1 if table_ok else 6)))
     H.shared_input_stage(ctx, "C06", [small(rng) for _ in range(ctx.pick(20, 150))]
                          + [loop_case(rng, stationary=True) for _ in range(ctx.pick(5, 50))])
-    cases = [loop_case(rng) for _ in range(ctx.pick(34, 350))]
+    cases = [loop_case(rng) for _ in range(ctx.pick(34, 300))]
     cases += [loop_case(rng, stationary=True) for _ in range(ctx.pick(30, 300))]
     metas = run_loop_cases(ctx, cases)
     cases = [straddle_case(rng) for _ in range(ctx.pick(40, 400))]
